@@ -417,6 +417,14 @@ def fam_O(spec, tier, seed, scratch, stats):
         for d in subdirs:
             cmds.append((f'update:{prof}:{d}', ['update', '-p', prof] + h + ['{root}/' + d]))
             cmds.append((f'verify:{d}', ['verify', '{root}/' + d]))
+    if name in ('empty_manifest', 'timestamp_in_sub'):
+        # option values the tool does not know: a diagnosed refusal (argparse exit or exit status 1), no traceback
+        for prof in ('nonesuch', 'EBUILD', ''):
+            cmds.append((f'update-badprofile:{prof}', ['update', '-p', prof, '-H', 'SHA1', '{root}']))
+            cmds.append((f'create-badprofile:{prof}', ['create', '-p', prof, '-H', 'SHA1', '{root}']))
+        for fmt in ('zip', 'GZ', ''):
+            cmds.append((f'update-badformat:{fmt}', ['update', '-f', '-H', 'SHA1', '-c', '0', '-C', fmt, '{root}']))
+            cmds.append((f'create-badformat:{fmt}', ['create', '-H', 'SHA1', '-c', '0', '-C', fmt, '{root}']))
     if name == 'empty_manifest':
         cmds.append(('badoption', ['verify', '--no-such-option', '{root}']))
         cmds.append(('update-nohashes', ['update', '{root}']))
